@@ -604,8 +604,66 @@ class Effects:
             if any(fa.term(x)["k"] == "return" for x in body):
                 continue
             coll = AP(ap.root, ap.proj[:-1])
+            # (c) the iterator visits every element: no adaptor that drops elements. A `take(E)`
+            # is accepted only when E is the length the function grows the collection to
+            # (the prefix that is used afterwards is exactly the prefix that was cleared).
+            if not self.full_iteration(fa, fa.term(hb)["args"][0], coll):
+                continue
             out.append((coll, {hb}))
         return out
+
+    FULL_ITER = ("iter_mut", "deref_mut", "into_iter", "as_mut_slice", "iter", "deref",
+                 "as_mut", "borrow_mut", "by_ref")
+
+    def full_iteration(self, fa, op, coll):
+        pl = op_place(op)
+        cur = pl["l"] if pl else None
+        for _ in range(12):
+            ds = fa.defs().get(cur, []) if cur is not None else []
+            if cur is not None and 1 <= cur <= fa.arg_count:
+                return True
+            if len(ds) != 1:
+                return len(ds) == 0
+            b, i, kind, payload = ds[0]
+            if kind == "call":
+                nm = strip_generics(sorted(callee_paths(payload))[0]).rsplit("::", 1)[-1]
+                if nm == "take" and len(payload["args"]) == 2:
+                    if not self.take_covers_growth(fa, payload["args"][1], coll):
+                        return False
+                elif nm not in self.FULL_ITER:
+                    return False
+                p0 = op_place(payload["args"][0]) if payload["args"] else None
+            else:
+                rv = payload
+                p0 = op_place(rv["op"]) if rv["k"] == "use" else rv["place"] if rv["k"] == "ref" else None
+            if p0 is None:
+                return False
+            if [e for e in p0["p"] if e != "*"]:
+                return True       # reached a field of the owner: the collection itself
+            cur = p0["l"]
+        return False
+
+    def take_covers_growth(self, fa, bound_op, coll):
+        """`take(E)`: E must be the same expression as the length the collection is grown to in
+        this function (`for _ in len..E { push }` / `resize(E, ..)`)."""
+        from sym import Sym, show
+        S = Sym(self, fa)
+        want = show(S.operand(bound_op))
+        targets = set()
+        for b, t in fa.calls():
+            nm = strip_generics(sorted(callee_paths(t))[0]).rsplit("::", 1)[-1]
+            if nm in ("resize", "resize_with") and len(t["args"]) >= 2:
+                if self.ap_operand(fa, t["args"][0]) == coll:
+                    targets.add(show(S.operand(t["args"][1])))
+        for b in fa.live_blocks():
+            for s in fa.blocks[b]["stmts"]:
+                if "rv" in s and s["rv"]["k"] == "agg" and str(s["rv"].get("adt", "")).endswith("ops::Range") \
+                        and len(s["rv"]["ops"]) == 2:
+                    st = S.operand(s["rv"]["ops"][0])
+                    if st[0] == "call" and st[1].endswith("len") and st[2] and st[2][0][0] == "ap" \
+                            and st[2][0][1] == coll:
+                        targets.add(show(S.operand(s["rv"]["ops"][1])))
+        return want in targets
 
     def foreach_kills(self, fa):
         """`X.iter_mut().for_each(Vec::clear)` / `.for_each(|v| v.clear())`: every element killed."""
